@@ -437,6 +437,8 @@ func checkC16(c *Ctx) {
 	ruleD3k(c)
 	ruleX10(c, "dt", "List", 4)
 	ruleQ8(c)
+	ruleQ9(c)
+	ruleQ6b(c)
 }
 
 func checkC17(c *Ctx) {
@@ -452,6 +454,7 @@ func checkC17(c *Ctx) {
 	ruleQ2(c)
 	ruleQ5(c, 8)
 	ruleQ67(c)
+	ruleQ6b(c)
 }
 
 func checkC18(c *Ctx) {
@@ -469,6 +472,7 @@ func checkC18(c *Ctx) {
 	ruleD6c(c)
 	ruleD6d(c)
 	ruleD6e(c)
+	ruleQ9(c)
 	ruleR1(c, allPkgs, 2)
 	ruleQ67(c)
 	ruleQ34(c, 3)
@@ -482,6 +486,7 @@ func checkC19(c *Ctx) {
 	ruleH56(c)
 	ruleH2(c)
 	ruleH1b(c)
+	ruleH7(c)
 }
 
 func checkC20(c *Ctx) {
@@ -494,6 +499,7 @@ func checkC20(c *Ctx) {
 	ruleD5(c, 2)
 	ruleL5(c)
 	ruleQueueLinks(c)
+	ruleW9b(c)
 	condRules(c, pubsubOwners, map[string]int{"W1": 5, "W2": 5, "W2b": 5, "W3": 20, "W4": 20, "W6": 20, "W7": 2})
 }
 
